@@ -105,6 +105,7 @@ class Atoms:
         elif kind == 'sqrt':
             self.facts.append(v >= 0)
             self.facts.append(v * v == arg)
+            self.facts.append(z3.Implies(arg > 0, v > 0))
         return v
 
     def _deep_consts(self, t):
@@ -221,6 +222,96 @@ def _free_consts(t):
                 out.add(str(x))
             stack.extend(x.children())
     return out
+
+
+_FACTOR_CACHE = {}
+
+
+def _is_prime(n):
+    if n < 2:
+        return False
+    for p in (2, 3, 5, 7, 11, 13, 17, 19, 23, 29, 31, 37):
+        if n % p == 0:
+            return n == p
+    d, r = n - 1, 0
+    while d % 2 == 0:
+        d //= 2
+        r += 1
+    for a in (2, 3, 5, 7, 11, 13, 17, 19, 23, 29, 31, 37):
+        x = pow(a, d, n)
+        if x in (1, n - 1):
+            continue
+        for _ in range(r - 1):
+            x = x * x % n
+            if x == n - 1:
+                break
+        else:
+            return False
+    return True
+
+
+def _rho(n, limit=3000000):
+    """Pollard rho (Brent); returns a non-trivial factor or None"""
+    import math
+    if n % 2 == 0:
+        return 2
+    for c in (1, 3, 5, 7, 11):
+        y, m, g, r, q = 2, 128, 1, 1, 1
+        it = 0
+        while g == 1 and it < limit:
+            x = y
+            for _ in range(r):
+                y = (y * y + c) % n
+            k = 0
+            while k < r and g == 1:
+                ys = y
+                for _ in range(min(m, r - k)):
+                    y = (y * y + c) % n
+                    q = q * abs(x - y) % n
+                    it += 1
+                g = math.gcd(q, n)
+                k += m
+            r *= 2
+        if g == n:
+            g = 1
+            while g == 1:
+                ys = (ys * ys + c) % n
+                g = math.gcd(abs(x - ys), n)
+        if 1 < g < n:
+            return g
+    return None
+
+
+def _small_factors(n):
+    """[(prime, multiplicity)]: full factorisation (trial division, then
+    Pollard rho); an unfactored cofactor, if any, is returned as one factor"""
+    if n in _FACTOR_CACHE:
+        return _FACTOR_CACHE[n]
+    n0 = n
+    out = {}
+    p = 2
+    while p * p <= n and p < 20000:
+        while n % p == 0:
+            n //= p
+            out[p] = out.get(p, 0) + 1
+        p += 1 if p == 2 else 2
+    stack = [n] if n > 1 else []
+    while stack:
+        m = stack.pop()
+        if m == 1:
+            continue
+        if _is_prime(m):
+            out[m] = out.get(m, 0) + 1
+            continue
+        f = _rho(m)
+        if f is None:
+            out[m] = out.get(m, 0) + 1
+            continue
+        stack.append(f)
+        stack.append(m // f)
+    res = sorted(out.items())
+    _FACTOR_CACHE[n0] = res
+    return res
 
 
 def _ipow(t, n):
@@ -380,6 +471,19 @@ class Ctx:
             self.pc.append(f(i))
         return i
 
+    def integral(self, feval, a, b, key):
+        """atom for the definite integral of f over [a, b]; `feval(t)` gives
+        the z3 term f(t); `key` identifies the integrand"""
+        a, b = z3real(a), z3real(b)
+        k = ('int', key + '|' + z3.simplify(a).sexpr() + '|' +
+             z3.simplify(b).sexpr())
+        at = self.atoms
+        if k in at.table:
+            return Sym(at.table[k])
+        v = at._fresh('int', (feval, a, b))
+        at.table[k] = v
+        return Sym(v)
+
     # ---------------------------------------------------------- atoms
     def exp(self, v):
         return Sym(self.atoms.get('exp', z3real(v), self))
@@ -396,9 +500,19 @@ class Ctx:
         positive under the path condition."""
         u = z3.simplify(u, som=False)
         if z3.is_rational_value(u):
-            if u.numerator_as_long() == u.denominator_as_long():
-                return z3.RealVal(0)
-            return self.atoms.get('log', u, self)
+            # log of a positive rational: sum over its small prime factors
+            # (so that log(2 c) - log(c) == log(2) is linear arithmetic)
+            num, den = u.numerator_as_long(), u.denominator_as_long()
+            if num <= 0:
+                return self.atoms.get('log', u, self)
+            acc = z3.RealVal(0)
+            for val, sign in ((num, 1), (den, -1)):
+                for p, k in _small_factors(val):
+                    if p == 1:
+                        continue
+                    acc = acc + sign * k * self.atoms.get(
+                        'log', z3.RealVal(p), self)
+            return acc
         k = u.decl().kind() if z3.is_app(u) else None
         if k == z3.Z3_OP_MUL:
             fs = u.children()
@@ -416,4 +530,6 @@ class Ctx:
             kind, arg = self.atoms.info[str(u)]
             if kind == 'exp':
                 return arg
+            if kind == 'sqrt' and self.prove(arg > 0):
+                return z3.RealVal('1/2') * self._log_expand(arg)
         return self.atoms.get('log', u, self)
